@@ -21,7 +21,8 @@ META = {
                 "harness-side numpy computation of the target states (independent of the templates)"],
 }
 
-PATHS = {"dev": "device primitive", "dec": "op.decomposition()", "gr": "registered graph decomposition rule"}
+PATHS = {"dev": "device primitive", "dec": "op.decomposition()", "gr": "registered graph decomposition rule",
+         "sv": "state_vector(wire_order) called directly"}
 TOL = 1e-7   # not 1e-8: Mottonen's 2*arcsin(sqrt(x)) has an intrinsic sqrt(eps) ~ 1.5e-8 amplitude error when x rounds to 1-eps (witnessed)
 LABEL_POOLS = [[0, 1, 2, 3], ["a", "b", "c", "d"], [3, "x", 0, "q"], [-1, 10, "w0", "t"], [2, 0, 3, 1], ["q3", "q1", 5, 4]]
 
@@ -308,6 +309,15 @@ def gen_prep_cases(rng, tier):
          "mps": [{"re": A.tolist(), "im": np.zeros_like(A).tolist()} for A in mps_doc], "desc": "doc"})
     for n in range(1, 5):
         add({"t": "CosineWindow", "wires": labels(rng, n), "desc": f"n={n}"})
+    # fixed device orders whose permutation from (operator wires + rest) is NOT an involution (3-cycles):
+    # a transposition-only order cannot tell a permutation from its inverse
+    for t_, w_, o_ in (("CosineWindow", [1, 2], [0, 1, 2]), ("CosineWindow", [2, 0], [0, 1, 2]),
+                       ("CosineWindow", [3, 1, 0], [0, 1, 2, 3]), ("CosineWindow", ["b", "c"], ["c", "a", "b"])):
+        cases.append({"t": t_, "wires": w_, "order": o_, "sv": True, "desc": "cyclic-order"})
+    st3 = np.array([1, 2, 3, 4, 5, 6, 7, 8.0]); st3 = st3 / np.linalg.norm(st3)
+    for t_ in ("StatePrep", "MottonenStatePreparation", "AmplitudeEmbedding"):
+        cases.append({"t": t_, "wires": [3, 1, 2], "order": [1, 2, 0, 3], "state": enc(st3), "kind": "real", "kw": {}, "sv": t_ != "MottonenStatePreparation", "desc": "cyclic-order"})
+        cases.append({"t": t_, "wires": [1, 2], "order": [0, 1, 2], "state": enc([0.1, 0.7, 0.5, 0.5]), "kind": "real", "kw": {}, "sv": t_ != "MottonenStatePreparation", "desc": "cyclic-order"})
 
     # ---- seeded random cases
     k = 1 if not big else 12
@@ -683,7 +693,7 @@ def run(ctx):
     desc_hist = {}
     for c, o in zip(prep, out["prep"]):
         t = c["t"]
-        st = per.setdefault(t, {"cases": 0, "dev_ok": 0, "dec_ok": 0, "gr_ok": 0})
+        st = per.setdefault(t, {"cases": 0, "dev_ok": 0, "dec_ok": 0, "gr_ok": 0, "sv_ok": 0})
         st["cases"] += 1
         key = f"{t}:" + hashlib.sha1(json.dumps(c, sort_keys=True).encode()).hexdigest()[:12]
         small = {k: v for k, v in c.items() if k not in ("mps",)} if t == "MPSPrep" else c
@@ -709,7 +719,7 @@ def run(ctx):
             continue
         allw = all_wires_of(c)
         tgt = embed(v, allw, naux, c["order"])
-        for path, mode in (("dev", mode_dev), ("dec", mode_dec), ("gr", mode_dec)):
+        for path, mode in (("dev", mode_dev), ("dec", mode_dec), ("gr", mode_dec)) + ((("sv", mode_dev),) if c.get("sv") else ()):
             if path == "gr" and "gr_order" in o and o["gr_order"] != [w for w in c["order"]]:
                 # wires allocated dynamically by a rule: appended after the device wires, expected in |0>
                 tgt_gr = embed(v, allw, naux, c["order"] + [w for w in o["gr_order"][len(c["order"]):]])
